@@ -1320,8 +1320,92 @@ fn depth2(leaves: &[usize]) -> Vec<T> {
     out
 }
 
+
+// ---------- aggregates over another sheet's whole columns / rows ----------
+// The reference values are plain folds over the data written below; the sheet holding the formulas has fewer used
+// rows and columns than the sheet read, so a range clamped to the wrong sheet's extent gives a different result.
+
+const X_DATA: [(i32, i32, &str); 8] = [(1, 1, "1"), (3, 1, "2"), (5, 1, "x"), (6, 1, "TRUE"), (9, 1, "4"), (12, 1, "8"), (2, 2, "16"), (12, 2, "32")];
+
+fn x_cases() -> Vec<(&'static str, f64)> {
+    vec![
+        ("SUM(Sheet2!A:A)", 15.0),
+        ("SUM(Sheet2!A:B)", 63.0),
+        ("SUM(Sheet2!B:B)", 48.0),
+        ("SUM(Sheet2!1:1)", 1.0),
+        ("SUM(Sheet2!12:12)", 40.0),
+        ("SUM(Sheet2!2:12)", 62.0),
+        ("SUM(Sheet2!A1:A12)", 15.0),
+        ("SUM(Sheet2!A1:B12)", 63.0),
+        ("COUNT(Sheet2!A:A)", 4.0),
+        ("COUNTA(Sheet2!A:A)", 6.0),
+        ("COUNT(Sheet2!A:B)", 6.0),
+        ("MAX(Sheet2!A:B)", 32.0),
+        ("MAX(Sheet2!A:A)", 8.0),
+        ("MIN(Sheet2!A:A)", 1.0),
+        ("MIN(Sheet2!9:12)", 4.0),
+        ("AVERAGE(Sheet2!A:A)", 3.75),
+        ("AVERAGE(Sheet2!B:B)", 24.0),
+        ("SUM(Sheet2!A:A,Sheet2!B:B,1)", 64.0),
+        ("SUM(Sheet2!A:A)+MAX(Sheet2!12:12)", 47.0),
+        ("IF(COUNT(Sheet2!A:A)=4,SUM(Sheet2!B:B),0)", 48.0),
+    ]
+}
+
+fn x_judge(formula: &str, want: f64) -> Vec<Disagreement> {
+    let mut ds = vec![];
+    let case = json!({"cross_sheet": formula, "want": want});
+    let r = crate::env::guarded(|| -> Result<Vec<(String, String)>, String> {
+        let mut out = vec![];
+        // the formula lives on Sheet1 (one used row) and, second variant, on a third sheet with no cells but the formula
+        for host in [0u32, 2u32] {
+            let mut m = Model::new_empty("c06x", "en", "UTC", "en")?;
+            m.add_sheet("Sheet2")?;
+            m.add_sheet("Sheet3")?;
+            for (r, c, v) in X_DATA {
+                m.set_user_input(1, r, c, v.to_string())?;
+            }
+            m.set_user_input(0, 1, 1, "100".to_string())?;
+            m.set_user_input(host, 1, 3, format!("={}", formula))?;
+            m.evaluate();
+            let got = m.get_cell_value_by_index(host, 1, 3)?;
+            let ok = matches!(got, ironcalc_base::cell::CellValue::Number(n) if (n - want).abs() <= 1e-9 * want.abs().max(1.0));
+            if !ok {
+                out.push((if host == 0 { "host=sheet-with-few-rows".to_string() } else { "host=empty-sheet".to_string() }, format!("{:?}", got)));
+            }
+        }
+        Ok(out)
+    });
+    let head = formula.split('(').next().unwrap_or("");
+    let shape = if formula.contains("!A:") || formula.contains("!B:") { "whole-column" } else if formula.contains("!A1:") { "bounded" } else { "whole-row" };
+    match r {
+        Err(p) => ds.push(Disagreement { sig: format!("cross-sheet aggregate panic at={}", p.rsplit(" @ ").next().unwrap_or("")), case, detail: p }),
+        Ok(Err(e)) => ds.push(Disagreement { sig: "cross-sheet aggregate setup-error".into(), case, detail: e }),
+        Ok(Ok(bad)) => {
+            for (host, got) in bad {
+                ds.push(Disagreement {
+                    sig: format!("cross-sheet aggregate fn={} range={} {}", head, shape, host),
+                    case: case.clone(),
+                    detail: format!("`={}` over Sheet2 (A1=1 A3=2 A5=\"x\" A6=TRUE A9=4 A12=8 B2=16 B12=32): expected {} got {}", formula, want, got),
+                });
+            }
+        }
+    }
+    ds
+}
+
 pub fn run(run: &mut Run) {
     crate::cellval::keep_freed_memory();
+    let xc = x_cases();
+    let xres = crate::env::par_units(xc.len(), |u| x_judge(xc[u].0, xc[u].1));
+    for r in xres {
+        match r {
+            Ok(ds) => run.add_all(ds),
+            Err(e) => run.machinery_errors.push(e),
+        }
+    }
+    run.extra.insert("cross_sheet_aggregate_cases".into(), json!(xc.len() * 2));
+
     let thorough = run.tier.thorough();
     let all: Vec<usize> = (0..LEAVES.len()).collect();
     let reduced: &[usize] = if thorough { &L_THOROUGH } else { &L_QUICK };
@@ -1395,6 +1479,9 @@ pub fn run(run: &mut Run) {
 }
 
 pub fn replay(case: &Value) -> Vec<Disagreement> {
+    if let Some(f) = case["cross_sheet"].as_str() {
+        return x_judge(f, case["want"].as_f64().unwrap_or(0.0));
+    }
     match T::from_json(&case["term"]) {
         Some(t) => judge(&t).0,
         None => vec![],
